@@ -569,10 +569,25 @@ pub fn world_c11(_tier: Tier, world_no: u64, mut tape: Tape) -> WorldReport {
 
 fn inner_c11(world_no: u64, t: &mut Tape, rep: &mut WorldReport) {
     let s2 = 1 + t.draw(1 << 32);
-    let Some(prod) = produce(t, world_no, rep) else { return };
+    let Some(mut prod) = produce(t, world_no, rep) else { return };
+    // an artifact of realistic bulk: a resolved template repeats every bound UTxO wherever the input is
+    // mentioned, and UTxOs may carry reference scripts of many kilobytes - megabytes on the wire
+    let bulk = t.draw(250) == 249;
+    if bulk {
+        let (n, each) = *t.pick(&[(48usize, 16_000usize), (24, 12_000), (40, 40_000), (200, 3_000)]);
+        let mut set = HashSet::new();
+        for i in 0..n {
+            let mut u = crate::gen_tir::some_utxo(t, 0);
+            u.r#ref = tx3_tir::model::core::UtxoRef::new(&[(i % 251) as u8; 32], i as u32);
+            u.script = Some(tir::Expression::Bytes(vec![(i % 200) as u8 + 1; each]));
+            set.insert(u);
+        }
+        prod.tx.references.push(tir::Expression::UtxoSet(set));
+        rep.fire("bulk-artifact");
+    }
     let (bytes, version) = tx3_tir::encoding::to_bytes(&prod.tx);
     let clean = bytes.clone();
-    let faulty = t.chance(3, 5);
+    let faulty = t.chance(3, 5) && !bulk;
     let mut wire = bytes.clone();
     let mut version_str = version.to_string();
     let mut damages: Vec<String> = vec![];
@@ -814,6 +829,7 @@ fn back_end_stratum(t: &mut Tape, rep: &mut WorldReport, tx: &tir::Tx, prod: &Pr
             dist: AmountDist::Comfortable,
             ties: false,
             distinct: false,
+            hostile_datums: false,
         };
         gen_ledger(t, &mut w, p, &cfg);
     }
@@ -1430,13 +1446,64 @@ fn inner_c16(world_no: u64, t: &mut Tape, rep: &mut WorldReport) {
         fault_free = fault_free && true;
     }
     d.str(&doc.to_string());
+    // a server thread has a past: before a well-formed request, zero to two requests that the boundary
+    // refuses (a retired version over a good payload of another template, a payload cut short, a
+    // damaged payload, text that is not hex) are parsed on the same thread
+    let mut predecessors: Vec<J> = vec![];
+    if fault_free && t.chance(1, 3) {
+        let n = 1 + t.index(2);
+        for _ in 0..n {
+            let other = {
+                let mut g = crate::gen_tir::TirGen {
+                    t: &mut *t,
+                    params: vec![],
+                    queries: Default::default(),
+                    inputs: vec![],
+                    closed: false,
+                };
+                let tx = g.tx(1);
+                tx3_tir::encoding::to_bytes(&tx).0
+            };
+            let (raw, ver, note): (Vec<u8>, String, &str) = match t.draw(4) {
+                0 => (other, "v1alpha8".to_string(), "retired version over another template"),
+                1 => {
+                    let k = 1 + t.index(bytes.len().max(2) - 1);
+                    (bytes[..k.min(bytes.len())].to_vec(), version.to_string(), "payload cut short")
+                }
+                2 => {
+                    let mut o = other;
+                    let _ = damage(t, &mut o, &[0xa0], rep);
+                    (o, version.to_string(), "damaged payload of another template")
+                }
+                _ => (vec![], version.to_string(), "text that is not hex"),
+            };
+            let content = if raw.is_empty() { "zz-not-hex".to_string() } else { hex::encode(&raw) };
+            predecessors.push(json!({"tir": {"content": content, "encoding": "hex", "version": ver}, "args": {}}));
+            notes.push(format!("predecessor on the thread: {note}"));
+            rep.fire("rejected-predecessor");
+        }
+    }
     let docc = doc.clone();
-    let parsed = in_consumer(s2, move || {
-        guarded(|| -> Result<(AnyTir, ArgMap), String> {
+    let (pred_panics, parsed) = in_consumer(s2, move || {
+        let mut pred_panics = vec![];
+        for pdoc in predecessors {
+            let r = guarded(|| -> Result<(AnyTir, ArgMap), String> {
+                let req: tx3_resolver::trp::ResolveParams = serde_json::from_value(pdoc).map_err(|e| format!("request: {e}"))?;
+                tx3_resolver::trp::parse_resolve_request(req).map_err(|e| format!("{e}"))
+            });
+            if let Err(p) = r {
+                pred_panics.push(p);
+            }
+        }
+        let parsed = guarded(|| -> Result<(AnyTir, ArgMap), String> {
             let req: tx3_resolver::trp::ResolveParams = serde_json::from_value(docc).map_err(|e| format!("request: {e}"))?;
             tx3_resolver::trp::parse_resolve_request(req).map_err(|e| format!("{e}"))
-        })
+        });
+        (pred_panics, parsed)
     });
+    for p in pred_panics {
+        rep.violate("C16", "J3-panic", p.site(), format!("parse_resolve_request panicked on a refused predecessor request: {}", p.message));
+    }
     rep.evaluations += 1;
     let outcome;
     match parsed {
